@@ -17,3 +17,140 @@ package pebbledb
 //@   uses fs
 //@   ensures [C20.resolve] result1 == nil ==> result0 == realPath(dbPath)
 //@   loop 1 invariant realPath(abs) == joinPath(realPath(cur), suffix)
+
+// ---- C11 / C07: lock discipline, same-snapshot reads, and the commit protocol of the embedded store.
+// held: 0 = s.mu not held, 1 = read lock, 2 = write lock.  Guarded configuration fields may only be read
+// under a lock and written under the write lock.
+//@ protect PebbleScanner.matchThreshold read [C11.guard] held >= 1 write [C11.guard] held == 2
+//@ protect PebbleScanner.entropyTolerance read [C11.guard] held >= 1 write [C11.guard] held == 2
+
+
+// A mutation goes through one batch, committed exactly once, durably, under the writer lock; nothing is written
+// to the database directly.
+//@ group commitproto
+//@   ghost commits int
+//@   ghost commitOK bool
+//@   init commits = 0
+//@   init commitOK = false
+//@   call (*github.com/cockroachdb/pebble.Batch).Commit assert [C07.once] commits == 0
+//@   call (*github.com/cockroachdb/pebble.Batch).Commit assert [C07.sync] a1 == pebble.Sync
+//@   call (*github.com/cockroachdb/pebble.Batch).Commit assert [C11.commit] held == 2
+//@   call (*github.com/cockroachdb/pebble.Batch).Commit update commits = commits + 1
+//@   call (*github.com/cockroachdb/pebble.Batch).Commit update commitOK = result == nil
+//@   call (*github.com/cockroachdb/pebble.DB).Set assert [C07.direct] false
+//@   call (*github.com/cockroachdb/pebble.DB).Delete assert [C07.direct] false
+//@   call (*github.com/cockroachdb/pebble.DB).DeleteRange assert [C07.direct] false
+//@   call (*github.com/cockroachdb/pebble.DB).Apply assert [C07.direct] false
+//@   ensures [C07.commit] result == nil ==> commits == 1 && commitOK
+//@   ensures [C07.commit] commits <= 1
+//@ end
+
+// A single-key mutation may write directly, durably, under the writer lock.
+//@ group directproto
+//@   ghost writes int
+//@   ghost writeOK bool
+//@   init writes = 0
+//@   init writeOK = false
+//@   call (*github.com/cockroachdb/pebble.DB).Set assert [C07.sync] a3 == pebble.Sync
+//@   call (*github.com/cockroachdb/pebble.DB).Set assert [C07.once] writes == 0
+//@   call (*github.com/cockroachdb/pebble.DB).Set assert [C11.commit] held == 2
+//@   call (*github.com/cockroachdb/pebble.DB).Set update writes = writes + 1
+//@   call (*github.com/cockroachdb/pebble.DB).Set update writeOK = result == nil
+//@   call (*github.com/cockroachdb/pebble.DB).Delete assert [C07.sync] a2 == pebble.Sync
+//@   call (*github.com/cockroachdb/pebble.DB).Delete assert [C07.once] writes == 0
+//@   call (*github.com/cockroachdb/pebble.DB).Delete assert [C11.commit] held == 2
+//@   call (*github.com/cockroachdb/pebble.DB).Delete update writes = writes + 1
+//@   call (*github.com/cockroachdb/pebble.DB).Delete update writeOK = result == nil
+//@   ensures [C07.commit] result == nil ==> writes == 1 && writeOK
+//@ end
+
+// A scan reads the index and the records from one snapshot: never from the live database.
+//@ group snapshotproto
+//@   call (*github.com/cockroachdb/pebble.DB).Get assert [C11.snap] false
+//@   call (*github.com/cockroachdb/pebble.DB).NewIter assert [C11.snap] false
+//@ end
+
+//@ func (*PebbleScanner).AddSignature
+//@   noframe
+//@   include lockproto
+//@   include commitproto
+
+//@ func (*PebbleScanner).AddSignatures
+//@   noframe
+//@   include lockproto
+//@   include commitproto
+
+//@ func (*PebbleScanner).DeleteSignature
+//@   noframe
+//@   include lockproto
+//@   include commitproto
+
+//@ func (*PebbleScanner).SetAllMetadata
+//@   noframe
+//@   include lockproto
+//@   include commitproto
+
+//@ func (*PebbleScanner).MarkFalsePositive
+//@   noframe
+//@   include lockproto
+//@   include directproto
+
+//@ func (*PebbleScanner).SetMetadata
+//@   noframe
+//@   include lockproto
+//@   include directproto
+
+//@ func (*PebbleScanner).DeleteMetadata
+//@   noframe
+//@   include lockproto
+//@   include directproto
+
+//@ func (*PebbleScanner).SetThreshold
+//@   noframe
+//@   include lockproto
+
+//@ func (*PebbleScanner).SetEntropyTolerance
+//@   noframe
+//@   include lockproto
+
+//@ func (*PebbleScanner).ScanCandidates
+//@   noframe
+//@   include lockproto
+//@   include snapshotproto
+
+//@ func (*PebbleScanner).ScanTopologyExact
+//@   noframe
+//@   include lockproto
+//@   include snapshotproto
+
+//@ func (*PebbleScanner).ScanTopologyWithSnapshot
+//@   noframe
+//@   include lockproto
+//@   include snapshotproto
+
+// The rebuild commits in chunks: every commit is durable and under the writer lock; nothing bypasses the batch.
+//@ func (*PebbleScanner).RebuildIndexes
+//@   noframe
+//@   include lockproto
+//@   call (*github.com/cockroachdb/pebble.Batch).Commit assert [C07.sync] a1 == pebble.Sync
+//@   call (*github.com/cockroachdb/pebble.Batch).Commit assert [C11.commit] held == 2
+//@   call (*github.com/cockroachdb/pebble.DB).Set assert [C07.direct] false
+//@   call (*github.com/cockroachdb/pebble.DB).Delete assert [C07.direct] false
+//@   call (*github.com/cockroachdb/pebble.DB).DeleteRange assert [C07.direct] false
+
+// The per-hit closures of the scans fetch records from the snapshot they were given, never from the live database.
+//@ func (*PebbleScanner).ScanCandidates$1
+//@   noframe
+//@   include snapshotproto
+//@   ensures [C11.snap] true
+
+//@ func (*PebbleScanner).ScanTopologyWithSnapshot$1
+//@   noframe
+//@   include snapshotproto
+//@   ensures [C11.snap] true
+
+// RebuildIndexes commits through this closure: every chunk commit is durable.
+//@ func (*PebbleScanner).RebuildIndexes$1
+//@   noframe
+//@   call (*github.com/cockroachdb/pebble.Batch).Commit assert [C07.sync] a1 == pebble.Sync
+//@   ensures [C07.sync] true
